@@ -270,6 +270,8 @@ def check(ctx: Ctx) -> None:
                      'allow_deletion iff (not must and blocked) or (not DELETED and ongoing and blocked and no delays and the consistency gate '
                      'did not return early); handlers skipped on add/remove cycles')
     check_stop_daemons(ctx)
+    from . import _stoppers
+    _stoppers.check_flag_setter(ctx, 'R6.2')
     check_flow_delays(ctx)
     check_finalizer_writers(ctx)
     check_requires_finalizer(ctx)
